@@ -287,14 +287,13 @@ func (w *TimingWheel) moveTask(task baseEntry) {
 		return
 	}
 
-	pos, circle := w.getPositionAndCircle(task.delay)
-	if pos > timer.pos {
-		timer.item.circle = circle
-		timer.item.diff = pos - timer.pos
-	} else if circle > 0 {
-		circle--
-		timer.item.circle = circle
-		timer.item.diff = w.numSlots + pos - timer.pos
+	pos, _ := w.getPositionAndCircle(task.delay)
+	steps := int(task.delay / w.interval)
+	// 条目所在槽位距下一次被扫描还需的滴答数，取值 [1, numSlots]
+	ahead := (timer.pos-w.tickedPos-1+w.numSlots)%w.numSlots + 1
+	if rem := steps - ahead; rem >= 0 {
+		timer.item.circle = rem / w.numSlots
+		timer.item.diff = rem % w.numSlots
 	} else {
 		timer.item.removed = true
 		newItem := &timingEntry{
